@@ -463,6 +463,99 @@ def evaluate(ck, cases, pool, direct_only=False):
     return failing
 
 
+
+# ---------------------------------------------------------------------------------------------
+# sass:math functions on arguments whose real-valued result is an exactly known rational
+# (libm itself is outside the model: only these cases are checked; the expected text is the model's
+#  print of the exact value, computed with integer arithmetic — never with floats)
+# ---------------------------------------------------------------------------------------------
+
+def _pow_exact(b, e):
+    """b: Fraction, e: int -> Fraction or None (0^negative)"""
+    from fractions import Fraction
+    if b == 1:
+        return Fraction(1)
+    if b == -1:
+        return Fraction(1 if e % 2 == 0 else -1)
+    if abs(e) > 1100:
+        return None
+    if e >= 0:
+        return b ** e
+    return None if b == 0 else Fraction(1) / (b ** (-e))
+
+
+def _is_double(q):
+    """exactly representable as a normal f64"""
+    if q == 0:
+        return True
+    n, d = abs(q.numerator), q.denominator
+    if d & (d - 1):
+        return False
+    while n % 2 == 0:
+        n //= 2
+    return n < (1 << 53) and -1000 < (abs(q.numerator).bit_length() - d.bit_length()) < 1000
+
+
+def _dec(q):
+    """finite decimal text of a dyadic/decimal rational"""
+    from decimal import Decimal, getcontext
+    getcontext().prec = 1200
+    return plain(Decimal(q.numerator) / Decimal(q.denominator))
+
+
+def math_cases():
+    from fractions import Fraction as F
+    out = []
+    bases = ["2", "-2", "0.5", "10", "3", "-1", "1", "1.5", "-0.5", "4", "0.25", "-3", "7", "0.125", "16"]
+    exps = [0, 1, 2, 3, 5, 10, 20, 31, 52, 53, 64, 100, -1, -2, -3, -10, -31, 1023, -1022,
+            2147483647, 2147483648, 4294967296, 4294967297, -2147483649, 10000000000, 10000000001, 65536 * 65536 * 4]
+    for b in bases:
+        for e in exps:
+            q = _pow_exact(F(b), e)
+            if q is None or not _is_double(q) or (q != 0 and abs(q) >= F(10) ** 30):
+                continue
+            out.append((f"math.pow({b}, {e})", _dec(q)))
+    for r in ["0", "1", "2", "1.5", "0.25", "100000", "12", "0.001953125", "3", "255", "1024", "0.5"]:
+        q = F(r) * F(r)
+        out.append((f"math.sqrt({_dec(q)})", r))
+    for fn, deg, val in [("sin", 0, "0"), ("sin", 30, "0.5"), ("sin", 90, "1"), ("sin", 150, "0.5"), ("sin", 180, "0"),
+                         ("sin", 270, "-1"), ("sin", -30, "-0.5"), ("sin", 360, "0"), ("cos", 0, "1"), ("cos", 60, "0.5"),
+                         ("cos", 90, "0"), ("cos", 120, "-0.5"), ("cos", 180, "-1"), ("cos", 270, "0"), ("cos", 360, "1"),
+                         ("tan", 0, "0"), ("tan", 45, "1"), ("tan", 135, "-1"), ("tan", 180, "0"), ("tan", -45, "-1")]:
+        out.append((f"math.{fn}({deg}deg)", val))
+        if deg % 90 == 0:
+            out.append((f"math.{fn}({deg * 10 // 9}grad)", val))
+            out.append((f"math.{fn}({F(deg, 360)}turn)" if deg % 360 == 0 else f"math.{fn}({_dec(F(deg, 360))}turn)", val))
+    out += [("math.log(1)", "0"), ("math.log(8, 2)", "3"), ("math.log(100, 10)", "2"), ("math.log(0.5, 2)", "-1"),
+            ("math.hypot(3, 4)", "5"), ("math.hypot(5, 12)", "13"), ("math.hypot(0.3, 0.4)", "0.5"),
+            ("math.abs(-2.5)", "2.5"), ("math.percentage(0.5) == 50%", None)]
+    return [c for c in out if c[1] is not None]
+
+
+def evaluate_math(ck, pool):
+    cases = math_cases()
+    lines = []
+    for _, val in cases:
+        lines += [f"num eval e L{val}", f"num eval c L{val}"]
+    outs = driver(lines)
+    failing = []
+    for k, st in enumerate(("e", "c")):
+        src = '@use "sass:math";\n' + "\n".join(f"x{{i:{i}; v: {e}}}" for i, (e, _) in enumerate(cases))
+        ans = pool.map([compile_job(src, style="compressed" if st == "c" else None, syntax="scss")], timeout=30)[0]
+        found = {int(m.group(1)): m.group(2) for m in RULE.finditer(ans.get("css") or "")} if ans.get("status") == "ok" else {}
+        for i, (e, val) in enumerate(cases):
+            want = dec_model(outs[2 * i + k].split(" | ")[0])
+            got = ("ok " + found[i]) if i in found else f"status {ans.get('status')} {(ans.get('err') or {}).get('message', '')}"[:160]
+            ck.count(("c07-math", e, st), True)
+            ck.hist("math:" + e.split("(")[0])
+            if got != want:
+                failing.append({"source": f'@use "sass:math";\nx{{v: {e}}}', "style": st, "impl_observation": got,
+                                "model_observation": want, "specified": want, "verdict": None, "size": 2, "tags": [],
+                                "expected_by_property": f"sass:math function must agree with the real-valued function: "
+                                                        f"exact value {val}"})
+    return failing
+
+
 def run(tier, seed):
     ck = Check("C07", tier, seed)
     ck.disagreements = []
@@ -475,7 +568,8 @@ def run(tier, seed):
     ck.assumptions = ["str::parse::<f64> and format!(\"{:.10}\") are correctly rounded (half-even on exact ties) — modelled, "
                       "checked by the correspondence",
                       "results below the normal range of f64 (subnormal) are not modelled: the driver answers unsupported",
-                      "libm functions (pow, sqrt, trig, log) are outside the model"]
+                      "libm functions (pow, sqrt, trig, log, hypot) are outside the model: only arguments whose real-valued result is an "
+                      "exactly known rational are checked (expected text = model print of that rational)"]
     ck.do_prove(cores=("num",))
     if not ck.do_build_runner():
         ck.unproved("correspondence-broken", {"why": "runner does not build against /repo",
@@ -484,6 +578,7 @@ def run(tier, seed):
     pool = RunnerPool()
     cases = gen_cases(ck, tier)
     failing = evaluate(ck, cases, pool)
+    failing += evaluate_math(ck, pool)
     if (not ck.proof["ok"] or ck.cov["model_disagreements"]) and not [f for f in failing if not f["tags"]] \
             and tier == "quick":
         log("[C07] proof or correspondence broken: enlarging the search")
